@@ -1303,7 +1303,10 @@ pub fn structured_points(ctx: &Arc<Ctx>) {
     use rayon::prelude::*;
     let dc = Decaf::new();
     let f = dc.c.f.clone();
-    let pts = crate::sqrtclass::encode_points(&dc, ctx.quick());
+    let mut pts = crate::sqrtclass::encode_points(&dc, ctx.quick());
+    let by_w = crate::sqrtclass::encode_points_by_w(&dc);
+    ctx.report.set("structured_points_by_intermediate_w", json!(by_w.len()));
+    pts.extend(by_w);
     let c01 = ctx.prop == "C01";
     let work: Vec<(usize, usize)> = (0..pts.len() * 4).map(|i| (i / 4, i % 4)).collect();
     run_cases(
